@@ -5,13 +5,20 @@ P = dict(
     stall_s=120,
     confirm_s=45,
     level='fault_enumeration',
-    technique='runtime monitoring with fault enumeration: real fork() children killed by every signal 1..31 at every crash point, exit statuses, stop/continue, with a recording wrapper at the PlatformSpecificFork/WaitPid seams; complete EINTR^k (k=0..40) and generated fork/waitpid outcome scripts with synthetic status words; oracle = the statement\'s decision table applied to independently decoded status words; ASan/UBSan build without signal handlers',
+    technique='runtime monitoring with fault enumeration: real fork() children killed by every signal 1..31 at every crash point, exit statuses, stop/continue, with a recording wrapper at the PlatformSpecificFork/WaitPid seams; complete EINTR^k (k=0..40) and generated fork/waitpid outcome scripts with synthetic status words; oracle = the statement\'s decision table applied to independently decoded status words; the dying test is an ordinary TEST or an IGNORE_TEST run because of "run ignored", separate-process execution is requested through the registry or per shell, and the registry is run once or twice; two logical monitors stand in for the wall-clock watchdog: a deadly action about to be executed in the process that called runAllTests() is skipped and reported (test not isolated), and the wait seam records the options of every wait and reports a stop event that arrives at a wait which did not ask for stop notifications (then delivers it, so the run ends); ASan/UBSan build without signal handlers',
     rule='cases: (signal 1..31 x crash point in constructor/setup/body/teardown/destructor/plugin pre/plugin post) complete; exit statuses via exit/_exit at random crash points; mixed programs of failing checks, abort, null write, 1..3 SIGSTOPs followed by pass/fail/kill/exit; '
-         'scripted waitpid sequences EINTR^k + {exit 0, exit N, signaled, errno, stopped} for k=0..40 complete, and generated scripts (<=5 EINTR, 0..4 stop events, terminal status or errno, fork failure, garbage after the terminal item) each followed by 0..3 normally completing tests. '
+         'every real-fork case draws: shell kind per test (TEST / IGNORE_TEST, 25 %), registry "run ignored" on/off (forced on when the subject of the case is an IGNORE_TEST), request via registry flag or per-shell flag (15 %), one or two runAllTests passes over the same registry (20 %); an IGNORE_TEST that is not run is only required to add nothing; '
+         'scripted waitpid sequences EINTR^k + {exit 0, exit N, signaled, errno, stopped} and stopped + EINTR^k + stopped + exit 0 for k=0..40 complete, and generated scripts (<=5 EINTR, 0..4 stop events, terminal status or errno, fork failure, garbage after the terminal item) each followed by 0..3 normally completing tests. '
          'The EINTR bound is learned per case from an EINTR-only script. Non-trivial = every case except plain exit 0; distinct by (signal, crash point) / status / plan sequence / script',
     floor=dict(quick=1500, thorough=20000),
-    counter_floor=dict(quick=dict(real_children_forked=800, scripted_stop_events=500, signal_deaths_observed=150), thorough=dict(real_children_forked=5000)),
+    counter_floor=dict(quick=dict(real_children_forked=800, scripted_stop_events=500, signal_deaths_observed=150, ignored_tests_run_ignored_with_a_deadly_action=40, passes_judged_second=20, cases_separate_process_requested_per_shell=20,
+                                  scripted_children_stopped_more_than_once=300, scripted_waits_after_a_reported_stop_asking_for_stops=1500, real_children_stopped_more_than_once=10),
+                       thorough=dict(real_children_forked=5000, ignored_tests_run_ignored_with_a_deadly_action=300, passes_judged_second=200, cases_separate_process_requested_per_shell=150,
+                                     scripted_children_stopped_more_than_once=5000, scripted_waits_after_a_reported_stop_asking_for_stops=20000, real_children_stopped_more_than_once=100)),
     assumptions=['Linux status word layout (independent decoder in the harness)', 'SIGTSTP/SIGTTIN/SIGTTOU may be discarded by the kernel in an orphaned process group: the oracle follows the recorded wait results',
                  'generated scripts keep the total number of EINTRs at 5 or below the learned bound; whether the retry budget is per wait or cumulative is not judged',
-                 'a hang of the parent is reported only after the driver re-ran the single case and it hung again (otherwise inconclusive)'],
+                 'a hang of the parent is reported only after the driver re-ran the single case and it hung again (otherwise inconclusive)',
+                 'kernel model used at the wait seam: a stop is reported only to a wait whose options include WUNTRACED, and a stopped child that nobody continues never ends; a wait without WUNTRACED is not flagged unless a stop event actually arrives at it',
+                 'a deadly action (terminating/stopping signal, exit, _exit, abort, null write) that would execute in the process running the registry is judged as the loss of the runner without executing it; non-deadly tests that were not given a child are reported under their own key (test-not-given-a-child-process)',
+                 'the command-line spelling of the configuration (-p, -ri, -rN) is C12\'s business; here the registry API is driven directly'],
 )
